@@ -21,6 +21,7 @@ from sa import core
 from sa import fieldtypes
 from sa import pat
 from sa import pycfg
+from sa import tpl
 from sa import trav
 
 ANF = 'malt/pyct/common_transformers/anf.py'
@@ -262,6 +263,19 @@ def check(model, rep, tier):
     b = pat.seq(body, ['assert not self._pending_statements',
                        '_R_ = self._consume_pending_statements()',
                        '_R_.append(%s)' % prm, 'return _R_'])
+    if b is None:
+      # the same list as one expression: [*consume(), node] / consume() + [node]
+      rets_ = [r for r in ast.walk(ss.node) if isinstance(r, ast.Return)]
+      if len(rets_) == 1 and rets_[0] is body[-1] and rets_[0].value is not None:
+        v = tpl.expand(ss, rets_[0].value, rets_[0])
+        cons = 'self._consume_pending_statements()'
+        if isinstance(v, ast.List) and len(v.elts) == 2 and isinstance(
+            v.elts[0], ast.Starred) and core.norm(v.elts[0].value) == cons and \
+            core.norm(v.elts[1]) == prm:
+          b = {}
+        elif isinstance(v, ast.BinOp) and isinstance(v.op, ast.Add) and \
+            core.norm(v.left) == cons and core.norm(v.right) == '[%s]' % prm:
+          b = {}
     ok = b is not None and core.norm(body[0]) == 'assert not self._pending_statements'
   rep.check(ok, 'ANF-BLOCKS', '%s:AnfTransformer:_visit_strict_statement' % ANF,
             'a simple statement is replaced by its extracted statements '
@@ -291,13 +305,29 @@ def check(model, rep, tier):
   gs = model.func(ANF, 'DummyGensym.new_name')
   g = pycfg.CFG(gs.node)
   inc = [i for i, (k, a) in enumerate(g.nodes) if isinstance(a, ast.AugAssign) and
-         core.norm(a.target) == 'self._idx' and isinstance(a.op, ast.Add)]
+         isinstance(a.target, ast.Attribute) and core.norm(a.target.value) == 'self'
+         and isinstance(a.op, ast.Add)]
   rets = g.nodes_where(lambda k, a: k == 'return')
   ok = len(inc) == 1 and bool(rets)
   if ok:
+    ctr = core.norm(g.nodes[inc[0]][1].target)
     dom = g.dominators(skip_labels=('exc',))
-    ok = all(inc[0] in dom[r] and 'self._idx' in core.norm(g.nodes[r][1].value)
+    ok = all(inc[0] in dom[r] and ctr in core.norm(g.nodes[r][1].value)
              for r in rets)
+  elif rets:
+    # a counter object: every returned name contains the value of one
+    # next(self.<c>) call, <c> being an itertools.count set up in __init__
+    gcls = model.cls(ANF, 'DummyGensym')
+    init = gcls.methods.get('__init__')
+    counters = {core.norm(a.targets[0]) for a in ast.walk(init.node)
+                if isinstance(a, ast.Assign) and isinstance(a.value, ast.Call) and
+                core.dotted(a.value.func) in ('itertools.count', 'count')} if init else set()
+    ok = bool(counters)
+    for r in rets:
+      rv = tpl.expand(gs, g.nodes[r][1].value, g.nodes[r][1])
+      nx = [c for c in ast.walk(rv) if isinstance(c, ast.Call) and core.dotted(c.func)
+            == 'next' and len(c.args) == 1 and core.norm(c.args[0]) in counters]
+      ok = ok and len(nx) == 1
   rep.check(ok, 'ANF-GENSYM', '%s:increment-before-use' % gs.site,
             'every new temporary must use an index that was incremented first',
             line=gs.node.lineno, witness='two temporaries in one statement')
